@@ -1435,6 +1435,10 @@ func (d *Data) storeAndUpdate(ctx *datastore.VersionedCtx, keyStr string, newDat
 	}
 	rcvJSON, _ := json.Marshal(newData)
 	origJSON, _ := json.Marshal(origData)
+	origFields := make([]string, 0, len(origData)) // updateJSON removes nulled fields from origData
+	for field := range origData {
+		origFields = append(origFields, field)
+	}
 	updateJSON(origData, newData, ctx.User, conditionals, replace)
 	newJSON, _ := json.Marshal(newData)
 	dvid.Infof("neuronjson %s put by user %q, conditionals %v, replace %t:\nOrig: %s\n Rcv: %s\n New: %s\n",
@@ -1447,8 +1451,8 @@ func (d *Data) storeAndUpdate(ctx *datastore.VersionedCtx, keyStr string, newDat
 		mdb.data[bodyid] = newData
 
 		// cache updated field and field timestamps
-		for field := range origData {
-			mdb.fields[field]--
+		for _, field := range origFields {
+			mdb.decrementField(field)
 		}
 		for field := range newData {
 			mdb.fields[field]++
@@ -1579,7 +1583,7 @@ func (d *Data) DeleteData(ctx storage.VersionedCtx, keyStr string) error {
 		_, found := mdb.data[bodyid]
 		if found {
 			for field := range mdb.data[bodyid] {
-				mdb.fields[field]--
+				mdb.decrementField(field)
 			}
 			delete(mdb.data, bodyid)
 			mdb.deleteBodyID(bodyid)
